@@ -9,7 +9,7 @@ import (
 func init() {
 	slip.Define(
 		func(args slip.List) slip.Object {
-			f := Prog1{Function: slip.Function{Name: "prog1", Args: args}}
+			f := Prog1{Function: slip.Function{Name: "prog1", Args: args, SkipEval: []bool{true}}}
 			f.Self = &f
 			return &f
 		},
@@ -43,8 +43,17 @@ type Prog1 struct {
 }
 
 // Call the function with the arguments provided.
-func (f *Prog1) Call(s *slip.Scope, args slip.List, depth int) slip.Object {
+func (f *Prog1) Call(s *slip.Scope, args slip.List, depth int) (result slip.Object) {
 	slip.CheckArgCount(s, depth, f, args, 1, -1)
-
-	return args[0]
+	d2 := depth + 1
+	for i := range args {
+		v := slip.EvalArg(s, args, i, d2)
+		if isTransfer(v) {
+			return v // a return-from, return or go is passed on to its target
+		}
+		if i == 0 {
+			result = slip.Primary(v)
+		}
+	}
+	return
 }
